@@ -550,6 +550,7 @@ macro "rstep_auto" : tactic => `(tactic| (
 theorem astep_rstep {s s' : Sys} {a : Act} (hr : restrictedAct s a = true)
     (h : astep s a = some s') : RStep s.k s'.k := by
   cases a <;> simp only [astep] at h
+  case config big => cases h; exact RStep.refl _
   case cmdBegin th c => simp only [stepCmdBegin] at h; rstep_auto
   case bound th => simp only [stepBound] at h; rstep_auto
   case pin th => simp only [stepPin] at h; rstep_auto
